@@ -19,6 +19,12 @@ func (m *Message) SkipClassAdRaw(ctx context.Context) error {
 		return fmt.Errorf("failed to read expression count: %w", err)
 	}
 	for i := 0; i < numExprs; i++ {
+		// Every expression occupies at least one byte of the message (its
+		// terminator). The count is peer-supplied: once the message is exhausted
+		// stop, instead of skipping nothing for each of the remaining rounds.
+		if err := m.ensureData(ctx, 1); err != nil {
+			return fmt.Errorf("failed to skip expression %d (expected %d): %w", i, numExprs, err)
+		}
 		if err := m.SkipString(ctx); err != nil {
 			return fmt.Errorf("failed to skip expression %d (expected %d): %w", i, numExprs, err)
 		}
